@@ -12,8 +12,12 @@ TECHNIQUE = ("Coq theorems over hand-written Gallina models of readdir.Readdir, 
 LEVEL_TEXT = ("Theorems for all name lists, counts and msize values: the paged listing (next offset = Offset of the last entry) returns "
               "every entry exactly once in order whenever one entry fits, for the static/compose Readdir and the localfs loop, directly and "
               "through the server's truncation; every page makes progress; an entry's QID/Type equal what Walk and GetAttr report after any "
-              "intervening lookups (any nesting of mounts). Every run re-checks the proofs and compares the models with localfs on "
-              "temporary directories, staticfs, composefs and nested mounts, via File directly and via real client+server.")
+              "intervening lookups (any nesting of mounts), also after a mount's own identity changed since the composefs was built "
+              "(C19_qids_mount_changed; a root answering from QIDs remembered at mount time is refuted: C19_mount_cache_refuted). Every run re-checks the proofs and compares the models with localfs on "
+              "temporary directories, staticfs, composefs and nested mounts, via File directly and via real client+server; composefs "
+              "mounts include files whose QID version/path the harness changes after New and in the middle of scripted "
+              "Readdir/Walk/GetAttr sequences (op OBump), and the property evaluated on a script is: whatever a Readdir listed for a name "
+              "equals what a Walk to it and GetAttr report, in either order, between two identity changes.")
 LEVEL_NOTE = ("Trusted: Coq kernel + vm_compute; hand models Fsx/Readdir.v, LocalDir.v, Paging.v, QidMap.v (tied by the differential cases "
               "and by FsGen expression checks only); the order in which the host returns directory entries (and its stability while "
               "the directory is not modified) is an oracle input; decode(encode(entries)) = entries is C01's.")
@@ -29,6 +33,8 @@ TRUSTED_BASE = [
     "axioms: none (Print Assumptions: closed under the global context for every property theorem)",
     "go2coq ConstGen (maximumLength, QID type constants) and FsGen (source text of the Readdir offset/skip/rewind expressions)",
     "hand-written models Fsx/*.v, tied by harness/fsimpl/localfs/c19_local_test.go, harness/fsimpl/composefs/c19_compose_test.go + Fsx/C19Cases.v",
+    "python case translator props/C19.py:to_case (JSON observation -> c19case term, names/QIDs tabled by position)",
+    "harness twin vh19Mut (a mounted File whose GetAttr/Open QID is a mutable cell) stands for 'the mount's identity changed'",
 ]
 
 SHARD_BYTES = 120_000
